@@ -56,15 +56,22 @@ func alphabet(size, last uint64) []uint64 {
 
 var recFilter = ev.New("C04", "filter-model",
 	"rapid: window size from {1,2,63,64,65,128,256,1000}; sequence (len 1..200) of ids drawn from a boundary alphabet "+
-		"(0,1,block edges 63/64/65/127/128, size±1, ring size±1, 2^63, 2^64-2, 2^64-1, newest±{0,1,2,63..65,size±1,ring±1,2*ring}) mixed with uniform ids; "+
+		"(0,1,block edges 63/64/65/127/128, size±1, ring size±1, newest±{0,1,2,63..65,size±1,ring±1,2*ring}) mixed with ids uniform in [0, newest+2*size+130]; "+
+		"one case in four is a high-id case that adds 2^63, 2^64-2, 2^64-1, wrapping newest±d and uniform 64-bit ids (after which almost everything is behind the window), "+
+		"one in four is a front case (ids within [newest-size-1, newest+66]) so that long histories keep accepting, the others use the low boundary alphabet; "+
 		"each id goes through Add or IsOk(+MustAdd when ok) and is compared with a set+max reference model. "+
 		"Non-trivial: history has a duplicate, an out-of-order in-window id and an id crossing a 64-bit block edge; distinct key = size + verdict string").
-	Require("dup", "ooo-in-window", "block-cross", "behind-window")
+	Require("dup", "ooo-in-window", "block-cross", "behind-window", "hi-id-case", "low-id-case", "accepts>=20", "long-history-mostly-accepted")
 
 func TestFilterModel(t *testing.T) {
 	rapid.Check(t, func(rt *rapid.T) {
 		size := rapid.SampledFrom(filterSizes).Draw(rt, "size")
 		n := rapid.IntRange(1, 200).Draw(rt, "n")
+		// per-case class: 0 = high-id case (may visit the top of the id space), 1 = front case (ids stay within
+		// [newest-size-1, newest+66], so long histories keep accepting), 2,3 = low boundary alphabet
+		style := rapid.IntRange(0, 3).Draw(rt, "style")
+		hi := style == 0
+		accepts := 0
 		f := ss2022.NewSlidingWindowFilter(size)
 		ref := newRef(size)
 		var dup, ooo, cross, behind bool
@@ -72,11 +79,24 @@ func TestFilterModel(t *testing.T) {
 		ids := make([]uint64, 0, n)
 		for i := 0; i < n; i++ {
 			var id uint64
-			if rapid.IntRange(0, 9).Draw(rt, "kind") < 8 {
+			switch k := rapid.IntRange(0, 9).Draw(rt, "kind"); {
+			case style == 1:
+				d := rapid.Uint64Range(0, size+1).Draw(rt, "d")
+				if k < 5 || ref.max < d {
+					id = ref.max + 1 + d%66
+				} else {
+					id = ref.max - d
+				}
+			case k < 8 && hi:
 				a := alphabet(size, ref.max)
 				id = a[rapid.IntRange(0, len(a)-1).Draw(rt, "ai")]
-			} else {
+			case k < 8:
+				a := lowAlphabet(size, ref.max)
+				id = a[rapid.IntRange(0, len(a)-1).Draw(rt, "ai")]
+			case hi:
 				id = rapid.Uint64().Draw(rt, "id")
+			default:
+				id = rapid.Uint64Range(0, ref.max+2*size+130).Draw(rt, "id")
 			}
 			useAdd := rapid.Bool().Draw(rt, "useAdd")
 			want := ref.ok(id)
@@ -104,6 +124,7 @@ func TestFilterModel(t *testing.T) {
 			}
 			if want {
 				ref.add(id)
+				accepts++
 				verdicts = append(verdicts, '1')
 			} else {
 				verdicts = append(verdicts, '0')
@@ -111,6 +132,17 @@ func TestFilterModel(t *testing.T) {
 			ids = append(ids, id)
 		}
 		var labels []string
+		if hi {
+			labels = append(labels, "hi-id-case")
+		} else {
+			labels = append(labels, "low-id-case")
+		}
+		if accepts >= 20 {
+			labels = append(labels, "accepts>=20")
+		}
+		if n >= 50 && 2*accepts >= n {
+			labels = append(labels, "long-history-mostly-accepted")
+		}
 		if dup {
 			labels = append(labels, "dup")
 		}
